@@ -1,10 +1,10 @@
 SPECIFICATION Spec
 CONSTANTS
-  GetTagSteps = 2
-  CommitSnapshots = FALSE
+  GetTagSteps = 1
+  CommitSnapshots = TRUE
   CommitSerialized = TRUE
-  TwoPhaseCommit = FALSE
-  Prog <- ProgBase
+  TwoPhaseCommit = TRUE
+  Prog <- ProgCC
 INVARIANTS Linearizable StoredMatchesKey TagNeverFalselyMissing
 VIEW ConcView
 CHECK_DEADLOCK FALSE
